@@ -7,8 +7,8 @@
 #include "world.h"
 #include "peek.h"
 
-enum { DV_NONE = 0, DV_DELETE, DV_DUP, DV_SWAP, DV_SUBST, DV_INJECT, DV_SKIP, DV_N };
-static const char *DV_NAME[] = { "none", "msg_delete", "msg_dup", "msg_swap", "msg_subst", "msg_inject", "peer_skips_msg" };
+enum { DV_NONE = 0, DV_DELETE, DV_DUP, DV_SWAP, DV_SUBST, DV_INJECT, DV_SKIP, DV_FINMUT, DV_N };
+static const char *DV_NAME[] = { "none", "msg_delete", "msg_dup", "msg_swap", "msg_subst", "msg_inject", "peer_skips_msg", "peer_finished_edited" };
 
 struct Mode { int ver; uint16_t suite; int kind; int cauth; int resume; int tickets; const char *name; };
 static const Mode MODES[] = {
@@ -35,7 +35,7 @@ static Plan c06_gen(uint64_t seed, int tier, uint64_t index) {
     (void) tier; (void) index;
     Rng r(seed);
     int dv = 1 + (int) r.below(DV_N - 1);
-    return mk((int) r.below(NMODES), dv, (int) r.below(2), (int) r.below(dv == DV_SKIP ? NSKIPS : 9), (int) r.below(64), seed);
+    return mk((int) r.below(NMODES), dv, (int) r.below(2), (int) r.below(dv == DV_SKIP ? NSKIPS : dv == DV_FINMUT ? 4 : 9), (int) r.below(64), seed);
 }
 // all single-step deviations of every mode
 static std::vector<Plan> c06_fixed(int tier) {
@@ -52,6 +52,7 @@ static std::vector<Plan> c06_fixed(int tier) {
             }
         }
         for (int s = 0; s < NSKIPS; s++) { v.push_back(mk(m, DV_SKIP, 0, s, 0, 60000 + v.size())); }
+        for (int dir = 0; dir < 2; dir++) { for (int k = 0; k < 4; k++) { for (int a = 0; a < (k == 3 ? 4 : 1); a++) { v.push_back(mk(m, DV_FINMUT, dir, k, a * 29 + 3, 60000 + v.size())); } } }
     }
     return v;
 }
@@ -143,6 +144,13 @@ static RunResult c06_exec(const Plan &p) {
                     vsim_hs_skip(byz_node, S.type, 1);
                     what = std::string("peer_skips_msg:") + (S.byz_is_server ? "server_" : "client_") + S.name;
                 }
+                if (dv == DV_FINMUT) {
+                    // byzantine peer holding the session keys: its own Finished is edited before it is sealed (AEAD suites: the seam sits at the seal primitive)
+                    byz_node = ddir == DIR_C2S ? NODE_CLIENT : NODE_SERVER; rcv_role = ddir == DIR_C2S ? 1 : 0;
+                    if (k % 4 < 3) { vsim_pt_short_finished(byz_node, (uint32_t) (k % 4) * 4); what = "peer_finished_edited:verify_data_cut_to_" + std::to_string((k % 4) * 4) + "_bytes"; }
+                    else if (M.ver != 2) { vsim_pt_mutate(byz_node, 0, (M.ver >= 3 ? 12 : 4) + a % 12, 1, 3, 1u << (a % 8)); what = "peer_finished_edited:verify_data_bit_flipped"; }
+                    else { vsim_pt_short_finished(byz_node, 31); what = "peer_finished_edited:verify_data_cut_by_one_byte"; }
+                }
                 if (!w.connect()) { res.harness_error = true; res.detail = "connect failed"; }
                 else {
                     w.handshake();
@@ -150,6 +158,7 @@ static RunResult c06_exec(const Plan &p) {
                     uint64_t skipped = vsim_hs_skipped();
                     vsim_hs_skip(-1, -1, 0);
                     if (dv == DV_SKIP) { applied = skipped > 0; }
+                    if (dv == DV_FINMUT) { applied = vsim_pt_mutated() > 0; vsim_pt_mutate(-1, 0, 0, 1, 0, 0); }
                     MxEndpoint &rcv = rcv_role ? *w.srv : *w.cli;
                     bool completed = rcv.is_complete();
                     std::string ctx = std::string(M.name) + "," + (rcv_role ? "server" : "client") + "," + what;
